@@ -272,6 +272,12 @@ def spaces_for_ops(ctx):
     yield '2d-n2', odl.uniform_discr([0, 0], [1, 1], (2, 3))
     yield '2d-c', odl.uniform_discr([0, -1], [3, 1], (4, 3), dtype=complex)
     yield '3d', odl.uniform_discr([0, 0, 0], [1, 2, 3], (3, 2, 4))
+    # grid nodes on the domain boundary (all / one side / mixed per axis): the step of the stencil is the node distance
+    # extent / (n - 1), extent / (n - 1/2), ..., not extent / n
+    yield '1d-bdry', odl.uniform_discr(0, 1.8, 5, nodes_on_bdry=True)
+    yield '1d-bdry-left', odl.uniform_discr(0.5, 2.0, 4, nodes_on_bdry=[(True, False)])
+    yield '2d-bdry-mixed', odl.uniform_discr([0, 0], [1, 2.5], (3, 4), nodes_on_bdry=[(True, False), (True, True)])
+    yield '2d-bdry-one-axis', odl.uniform_discr([0, -1], [3, 1], (4, 3), nodes_on_bdry=[(False, False), (False, True)])
     if ctx.thorough:
         yield '2d-big', odl.uniform_discr([0, 0], [1, 1], (6, 5))
         yield '3d-b', odl.uniform_discr([0, 0, 0], [1, 1, 1], (3, 3, 3))
@@ -351,7 +357,11 @@ def run_ops(ctx):
     idx = 0
     for tag, sp in spaces_for_ops(ctx):
         shape = sp.shape
-        h = sp.cell_sides
+        # node distance from the defining data (limits, shape, boundary placement), not from the space's own cell_sides
+        nob = sp.partition.nodes_on_bdry_byaxis
+        ext = np.asarray(sp.max_pt, dtype=float) - np.asarray(sp.min_pt, dtype=float)
+        h = np.array([ext[a_] / (shape[a_] - 0.5 * bool(nob[a_][0]) - 0.5 * bool(nob[a_][1])) for a_ in range(sp.ndim)])
+        bdry = any(any(t_) for t_ in nob)
         nd = sp.ndim
         N = int(np.prod(shape))
         for method, mode in itertools.product(METHODS, ALLMODES):
@@ -363,7 +373,7 @@ def run_ops(ctx):
                 if not ctx.mine(idx):
                     continue
                 eff_const = pad_const if mode == 'constant' else 0
-                cfgb = '%s;%s;n=%s;ndim=%d%s' % (method, mode, sizeclass(min(shape)), nd, ';affine' if eff_const else (';pad_const-ignored' if pad_const else ''))
+                cfgb = '%s;%s;n=%s;ndim=%d%s' % (method, mode, sizeclass(min(shape)), nd, ';affine' if eff_const else (';pad_const-ignored' if pad_const else '')) + (';bdry-nodes' if bdry else '')
                 mats = []
                 offs = []
                 for ax in range(nd):
@@ -378,17 +388,17 @@ def run_ops(ctx):
                     except Exception as e:
                         ctx.violation('PartialDerivative', cfgb, 'ctor-raises:' + type(e).__name__, message=str(e)[:200])
                         continue
-                    check_pair(ctx, 'PartialDerivative', cfgb, op, mats[ax], offs[ax])
+                    check_pair(ctx, 'PartialDerivative', cfgb, op, mats[ax], offs[ax], want_adjoint=not bdry)
                 # Gradient
                 try:
                     G = odl.Gradient(sp, method=method, pad_mode=mode, pad_const=pad_const)
-                    check_pair(ctx, 'Gradient', cfgb, G, np.vstack(mats), np.concatenate(offs))
+                    check_pair(ctx, 'Gradient', cfgb, G, np.vstack(mats), np.concatenate(offs), want_adjoint=not bdry)
                 except Exception as e:
                     ctx.violation('Gradient', cfgb, 'ctor-raises:' + type(e).__name__, message=str(e)[:200])
                 # Divergence
                 try:
                     Dv = odl.Divergence(range=sp, method=method, pad_mode=mode, pad_const=pad_const)
-                    check_pair(ctx, 'Divergence', cfgb, Dv, np.hstack(mats), np.sum(offs, axis=0))
+                    check_pair(ctx, 'Divergence', cfgb, Dv, np.hstack(mats), np.sum(offs, axis=0), want_adjoint=not bdry)
                 except Exception as e:
                     ctx.violation('Divergence', cfgb, 'ctor-raises:' + type(e).__name__, message=str(e)[:200])
                 if idx % 50 == 0:
@@ -414,7 +424,7 @@ def run_ops(ctx):
                 except Exception as e:
                     ctx.violation('Laplacian', cfgb, 'ctor-raises:' + type(e).__name__, message=str(e)[:200])
                     continue
-                check_pair(ctx, 'Laplacian', cfgb, op, L, off)
+                check_pair(ctx, 'Laplacian', cfgb, op, L, off, want_adjoint=not bdry)
 
 
 def run(ctx):
